@@ -233,6 +233,22 @@ Theorem C01_hit_replays_stored :
 Proof. exact Proofs.ArgsReq.hit_replays_stored. Qed.
 Print Assumptions C01_hit_replays_stored.
 
+(* Unconditionally (any faults, any oracle, no invariant needed): a request answered from the cache hands the client
+   exactly the stdout, stderr and output files that the cache holds under the request's key, and runs no compiler.
+   At the level of bytes the model of "store, then restore" is the identity (Model/EntryBytes.v); that the real zip / zstd
+   path IS the identity for members of every size and compressibility class is what the differential leg `entry` and the
+   e2e scenario `large_objects` check (the encoding itself is C08's subject). *)
+Theorem C01_hit_returns_stored_entry :
+  forall f cc o st,
+  r_outcome (snd (execute f cc o st)) = Some OHit ->
+  exists st1 pp k so se outs,
+    generate_hash_key f cc o st = (st1, HKKey k, pp) /\
+    kv_get k (cs_res st1) = Some (RGood so se outs) /\
+    r_client (snd (execute f cc o st)) = CFinished 0%N so se /\
+    r_outputs (snd (execute f cc o st)) = outs /\ r_cc_runs (snd (execute f cc o st)) = 0%N.
+Proof. exact Proofs.ArgsReq.hit_returns_stored_entry. Qed.
+Print Assumptions C01_hit_returns_stored_entry.
+
 (* a failing build is handed to the client verbatim ([transparent], under [calm] as above: the ReqSM transparency theorem
    needs it since panics are fault values) and, calm or not, never stored *)
 Theorem C01_failure_verbatim_never_stored :
